@@ -47,7 +47,9 @@ class TimeInterval:
             # )
             return dt.replace(tzinfo=timezone.utc)
 
-        return dt
+        # datetimes that share a tzinfo object are compared and subtracted as wall-clock readings, which is
+        # ambiguous where a zone's clocks are set back: keep the instant, expressed in UTC
+        return dt.astimezone(timezone.utc)
 
     def __eq__(self, other) -> bool:
         """Test equality"""
